@@ -81,11 +81,24 @@ def outS : Out → String
     if m.isEmpty then "selected -" else
       "selected " ++ ",".intercalate ((sortKV m).map (fun p => ascii p.1 ++ "=" ++ verS p.2))
 
+/-- `<id>=<version>` (both tokens; a raw token contains no `=`) -/
+def item? (w : String) : Option (Str × Str) :=
+  match w.splitOn "=" with
+  | [i, v] => do some (← tok i, ← tok v)
+  | _ => none
+
 def parseOp (ws : List String) : Option Op :=
   match ws with
   | ["flags", o, d, p] => do some (.setFlags (← bool? o) (← bool? d) (← bool? p))
   | ["add", id, ver, a, c, p, ix] => do
     some (.add (← tok id) (← tok ver) (← bool? a) (← bool? c) (← bool? p) (← idx? ix))
+  | ["addv", id, ver, a, c, p] => do
+    some (.addVersion (← tok id) (← tok ver) (← bool? a) (← bool? c) (← bool? p))
+  | "addmany" :: a :: c :: p :: ix :: items => do
+    let its ← items.mapM item?
+    -- a Go map holds every identifier once
+    if (its.map (·.1)).eraseDups.length ≠ its.length then none else
+    some (.addMany its (← bool? a) (← bool? c) (← bool? p) (← idx? ix))
   | ["touch", id, ver, k] => do some (.touch (← tok id) (← tok ver) (← k.toNat?))
   | ["select"] => some .select
   | ["getfile", id] => do some (.getFile (← tok id))
@@ -137,6 +150,31 @@ def handle (s : St) (line : String) : St × String :=
         | some x, some y => cmpS x y
         | _, _ => "err parse")
     | _, _ => (s, "bad-op")
+  | ["fblacklist", id] =>
+    -- `File.Blacklist` on the file handed out last for `id`: `Resource.Blacklist` of the active version
+    match tok id with
+    | some i =>
+      match (s.get i).bind (·.active) with
+      | some v => let (s', o) := step s (.blacklist i v.str); (s', outS o)
+      | none => (s, "err nofile")
+    | none => (s, "bad-op")
+  | ["unpack", id] =>
+    -- `File.Unpack` (suffix = the extension) of the file handed out last: the unpacked copy of the active version appears
+    match tok id with
+    | some i =>
+      match (s.get i).bind (·.active) with
+      | some v =>
+        if hasExt (getVersionedPath i v.str) then
+          ((step s (.touch i v.str 2)).1, "unpacked " ++ ascii (filePath i (v, 2)))
+        else (s, "err noext")
+      | none => (s, "err nofile")
+    | none => (s, "bad-op")
+  | ["anyavail", id] =>
+    match tok id with
+    | some i => (s, match s.get i with
+        | some r => if r.versions.any (·.avail) then "avail true" else "avail false"
+        | none => "err notfound")
+    | none => (s, "bad-op")
   | _ =>
     match parseOp ws with
     | some op => let (s', o) := step s op; (s', outS o)
